@@ -1029,32 +1029,40 @@ class AnsiString:
         self._s += incoming_str
         find_settings = []
         replace_settings = []
-        for key, settings in sorted(incoming_fmts.items()):
+        # Work on copies of the incoming settings so that value is never modified (value may even be self)
+        incoming = [(key, list(settings.add), list(settings.rem)) for key, settings in sorted(incoming_fmts.items())]
+        for key, add, rem in incoming:
             key += shift
             if key in self._fmts:
-                if (
-                    key == shift
-                    and settings.add
-                    and self._fmts[key].rem[:len(settings.add)] == settings.add
-                ):
+                ending = []
+                if key == shift and add:
+                    # My settings which end here, in their order of precedence
+                    ending = [
+                        s for s in self.ansi_settings_at(shift - 1)
+                        if __class__._find_setting_reference(s, self._fmts[key].rem) >= 0
+                    ]
+                if add and ending[:len(add)] == add:
                     # Special case - the string being added contains same formatting as end of my string.
                     # Because the settings work based on references instead of values, the settings not only
                     # need to be removed here but changed where they are removed in the added string.
-                    find_settings = settings.add
-                    replace_settings = self._fmts[key].rem[:len(settings.add)]
-                    self._fmts[key].rem = self._fmts[key].rem[len(settings.add):]
-                    settings.add = []
-                    if not self._fmts[key] and not settings:
+                    find_settings = add
+                    replace_settings = ending[:len(add)]
+                    self._fmts[key].rem = [
+                        s for s in self._fmts[key].rem
+                        if __class__._find_setting_reference(s, replace_settings) < 0
+                    ]
+                    add = []
+                    if not self._fmts[key] and not rem:
                         del self._fmts[key]
                         continue
 
-                self._fmts[key].add.extend(settings.add)
-                self._fmts[key].rem.extend(settings.rem)
+                self._fmts[key].add.extend(add)
+                self._fmts[key].rem.extend(rem)
 
             else:
-                self._fmts[key] = _AnsiSettingPoint(list(settings.add), list(settings.rem))
+                self._fmts[key] = _AnsiSettingPoint(add, rem)
 
-                finds = __class__._find_settings_references(find_settings, settings.rem)
+                finds = __class__._find_settings_references(find_settings, rem)
                 if finds:
                     for find_idx, add_idx in reversed(finds):
                         self._fmts[key].rem[add_idx] = replace_settings[find_idx]
